@@ -27,6 +27,27 @@ BUILT.update({
             "Proof over the model for every decoder and every byte string; the real decoders are run on encodings whose model-marked don't-care bytes are overwritten (library-written, capture).",
             NOTE, "DESIGN.md §6 C12"),
 })
+CONT = "Lean 4 refinement proof: byte-level L0 model of add/remove/replace/setters (seek/write/truncate) simulates the list-of-blocks spec on every well-formed layout (add_sim, remove_sim, run_sim by induction over histories, any table length); "
+BUILT.update({
+    "C03": (CONT + "corollary wfB(image)=true; + seeded history correspondence with Lean's wfB judging the real bytes after every call",
+            "Proof over the model for every finite history from every compact start state and every table length; tied to /repo by running seeded histories on real files and on the model, comparing the file abstraction and Tdf.entries after every call; Lean's decidable WF predicate judges the real bytes.",
+            NOTE + " Start states are compact files; blocks are assumed to satisfy C02 (honest sizes); files stay below 2 GiB.", "DESIGN.md §6 container"),
+    "C04": (CONT + "frame theorems on the list spec (other types untouched, removed absent, replace keeps comment) and payload_read; + reference-dict oracle on real files",
+            "Proof over the model (frame conditions are list lemmas after the refinement); real files are parsed independently after every call and compared with a python reference of the history, plus read-back through get_block.",
+            NOTE, "DESIGN.md §6 container"),
+    "C07": ("Lean 4 theorems: add/remove rejected => state unchanged for EVERY state and cause; replace/setters atomic on well-formed layouts (add cannot fail after the remove); continuation equivalence; + fault-injection correspondence (sha before/after, twin file)",
+            "Proof over the model; on the real code every rejection cause x reachable states x position of the failing element is exercised, with sha-256 before/after and a twin-file continuation.",
+            NOTE, "DESIGN.md §6 container"),
+    "C09": (CONT + "corollaries compactB(image)=true, file length formula, add grows / remove shrinks by exactly the size; + history correspondence with Lean's compactB on the real bytes",
+            "Proof over the model; Lean's decidable compactness predicate and the length deltas judge the real file after every call.",
+            NOTE, "DESIGN.md §6 container"),
+    "C10": (CONT + "corollaries disk = view after every step, decTable(disk) = in-memory entries, openFile(disk) = same object; + three-observer correspondence after every call",
+            "Proof over the model (write buffering modelled as view/disk with explicit flush); on the real code Tdf.entries, an independent read inside the context, the file after close and reads through the open object are compared after every call.",
+            NOTE + " When CPython flushes by itself is not modelled.", "DESIGN.md §6 container"),
+    "C11": (CONT + "corollaries Nodup of live types, duplicate add refused on any state, setter = replace-or-add, accessors as functions of the block list; + accessor matrix on real files at every intermediate state",
+            "Proof over the model; on the real code every accessor (has_*, len, get_block by type/index, [], blocks, getters) is evaluated after every call and compared with an independent parse; duplicate add must raise ValueError.",
+            NOTE, "DESIGN.md §6 container"),
+})
 ALL = [f"C{i:02d}" for i in range(1, 21)]
 
 checks = []
